@@ -23,6 +23,7 @@ type genPackage struct {
 	ExtraGo map[string]string `json:"extra_go"`
 	Enable  []string          `json:"enable"`
 	Disable []string          `json:"disable"`
+	Ignore  []string          `json:"ignore_not_implemented"` // gen.Options.Generator.IgnoreNotImplemented
 	Meta    json.RawMessage   `json:"meta"`
 }
 
@@ -118,6 +119,7 @@ func generateUnit(hdir, scratch string, u *UnitSpec, tier string, seed int64) er
 		Pkg     string   `json:"pkg"`
 		Enable  []string `json:"enable"`
 		Disable []string `json:"disable"`
+		Ignore  []string `json:"ignore_not_implemented"`
 	}
 	udir := filepath.Join(scratch, "gen_"+u.Name)
 	os.MkdirAll(udir, 0o755)
@@ -128,7 +130,7 @@ func generateUnit(hdir, scratch string, u *UnitSpec, tier string, seed int64) er
 		st.specs[p.Name] = sp
 		dis := append([]string{"ogen/otel"}, p.Disable...)
 		dis = append(dis, g.Features...)
-		jobs = append(jobs, job{Name: p.Name, Spec: sp, Out: filepath.Join(udir, p.Name), Pkg: p.Name, Enable: p.Enable, Disable: dis})
+		jobs = append(jobs, job{Name: p.Name, Spec: sp, Out: filepath.Join(udir, p.Name), Pkg: p.Name, Enable: p.Enable, Disable: dis, Ignore: p.Ignore})
 	}
 	jb, _ := json.Marshal(jobs)
 	jf := filepath.Join(udir, "jobs.json")
